@@ -41,7 +41,7 @@ TARGETS = ["AndersonCD/Quadratic/L1", "AndersonCD/Quadratic/L1_plus_L2", "Anders
            "ProxNewton/Logistic/L1", "ProxNewton/Poisson/L1", "GroupBCD/QuadraticGroup/WeightedGroupL2",
            "MultiTaskBCD/QuadraticMultiTask/L2_1", "est/Lasso", "est/ElasticNet", "est/WeightedLasso",
            "est/MCPRegression", "est/GroupLasso", "est/MultiTaskLasso", "est/SparseLogisticRegression", "est/SqrtLasso",
-           "func/alpha_max"]
+           "est/CoxEstimator", "func/alpha_max"]
 
 
 def plan(tier, seed):
@@ -216,6 +216,12 @@ def solve_case(emit, cid, target, rng, sample):
         y = C.make_target(rng, X, "real", noise=1.0)
         refdf = R.RefDatafit("sqrtquad")
         icpt = False
+    elif name == "CoxEstimator":
+        cox_method = str(rng.choice(["efron", "breslow"]))
+        y = C.make_target(rng, X, "surv", ties=[False, True, "nonadjacent"][int(rng.integers(0, 3))])
+        refdf = R.RefDatafit("cox", efron=(cox_method == "efron"))
+        icpt = False
+        sparse_in = False
     else:
         y = C.make_target(rng, X, "real") + rng.uniform(-5, 5)      # non-centred target
         refdf = R.RefDatafit("quadratic")
@@ -234,7 +240,9 @@ def solve_case(emit, cid, target, rng, sample):
     if name in ("L1", "Lasso", "SparseLogisticRegression", "MCPenalty", "SqrtLasso"):
         crit_ref = float(np.max(np.abs(g0)))
         pen_for_amax = P.L1(1.0) if name != "MCPenalty" else P.MCPenalty(1.0, gam)
-    elif name in ("L1_plus_L2", "ElasticNet"):
+    elif name in ("L1_plus_L2", "ElasticNet", "CoxEstimator"):
+        if name == "CoxEstimator" and l1r < 1e-3:
+            l1r = 0.5
         crit_ref = float(np.max(np.abs(g0)) / l1r)
         pen_for_amax = P.L1_plus_L2(1.0, l1r)
     elif name in ("WeightedL1", "WeightedLasso"):
@@ -291,6 +299,9 @@ def solve_case(emit, cid, target, rng, sample):
                 elif name == "SparseLogisticRegression":
                     est = E.SparseLogisticRegression(alpha=alpha, fit_intercept=icpt, max_epochs=500, **kw)
                     rp = R.RefPenalty("l1", alpha=alpha)
+                elif name == "CoxEstimator":
+                    est = E.CoxEstimator(alpha=alpha, l1_ratio=l1r, method=cox_method, tol=tol, max_iter=200)
+                    rp = R.RefPenalty("enet", alpha=alpha, l1_ratio=l1r)
                 else:
                     est = SqrtLasso(alpha=alpha, tol=tol, max_iter=200)
                     rp = R.RefPenalty("l1", alpha=alpha)
@@ -387,7 +398,12 @@ def solve_case(emit, cid, target, rng, sample):
     if name == "SqrtLasso" and not viols:
         with warnings.catch_warnings():
             warnings.simplefilter("ignore")
-            als, cfs = SqrtLasso(tol=tol, max_iter=200).path(X, y, alphas=None, n_alphas=5)
+            sq = SqrtLasso(tol=tol, max_iter=200)
+            if rng.random() < 0.5:
+                # the same object swept other data before: its default grid must start at the critical value of THIS data
+                Xo = C.make_X(rng, n + 3, p, "gauss") * float(rng.choice([0.2, 5.0]))
+                sq.path(Xo, C.make_target(rng, Xo, "real", noise=1.0), alphas=None, n_alphas=3)
+            als, cfs = sq.path(X, y, alphas=None, n_alphas=5)
         if np.any(cfs[0] != 0) or not np.any(cfs[1:] != 0):
             viols.append(dict(common, mechanism="default-path-does-not-start-at-critical-value",
                               detail="first column max %.3g, later columns max %.3g" % (
